@@ -758,3 +758,39 @@ func badAcceptCarrierCloses(c *net.TCPConn) error {
 	}
 	return nil
 }
+
+// ---- private memory (C05.11) and unconditional effects (C19.2 / C06.9 / C08.3)
+
+type rdr interface{ Read([]byte) (int, error) }
+
+func okPrivBufOwn(r rdr) int {
+	buf := make([]byte, 64)
+	n, _ := r.Read(buf[:32])
+	return n
+}
+
+func badPrivBufShared(r rdr, shared []byte) int {
+	buf := shared[:cap(shared)]
+	n, _ := r.Read(buf)
+	return n
+}
+
+var pooled = make([]byte, 128)
+
+func badPrivBufGlobal(r rdr) int {
+	n, _ := r.Read(pooled[:64])
+	return n
+}
+
+func okUncondAlways(a, b bool) {
+	if a {
+		_ = b
+	}
+	sink("x")
+}
+
+func badUncondGated(a bool) {
+	if a {
+		sink("x")
+	}
+}
